@@ -202,6 +202,8 @@ struct Proj {
     files: Vec<(String, Vec<u8>)>,
     dirs: Vec<String>,
     sched: Option<Vec<usize>>,
+    /// with a schedule: the coordinator also polls once on an empty queue before every choice
+    idle_polls: bool,
     pp: Option<(String, bool)>,
     links: Vec<(String, String)>,
 }
@@ -365,7 +367,7 @@ fn run_proj(p: Proj) -> String {
         };
     } else {
         if controlled {
-            verif::install(p.sched.clone().unwrap());
+            verif::install_with_idle_polls(p.sched.clone().unwrap(), p.idle_polls);
         }
         let cfg = Config {
             base_dir,
@@ -546,6 +548,7 @@ fn main() {
             (Some(_), "c") => {}
             (Some(_), "o") => {}
             (Some(p), "s") => p.sched = Some(t[1..].iter().map(|x| x.parse().unwrap()).collect()),
+            (Some(p), "y") => p.idle_polls = t[1] == "1",
             (Some(p), "p") => p.pp = Some((s(t[1]), t[2] == "1")),
             (Some(_), "E") => {
                 out.flush().unwrap();
